@@ -864,7 +864,13 @@ func (rw *rewriter) stmt(st ast.Stmt) (pre []ast.Stmt, out ast.Stmt) {
 		if n.Post != nil {
 			p, o := rw.stmt(n.Post)
 			if len(p) > 0 {
-				fatal("%s: for-post statement needs an inserted statement; not supported", rw.pos(n))
+				// for …; …; post  ->  for …; …; func() { <events>; post }()
+				// (a call is a simple statement; continue still reaches it)
+				if _, isSend := o.(*ast.SendStmt); isSend {
+					fatal("%s: send in a for-post statement; not supported", rw.pos(n))
+				}
+				body := &ast.BlockStmt{List: append(p, o)}
+				o = &ast.ExprStmt{X: &ast.CallExpr{Fun: &ast.FuncLit{Type: &ast.FuncType{Params: &ast.FieldList{}}, Body: body}}}
 			}
 			n.Post = o
 		}
